@@ -29,3 +29,21 @@ func Harness_C20_ClientRegistry() {
 	v3, e3 := r.CreateClientVersion("3.1", cfg)
 	verifrt.Assert(e2 == nil && v2 != nil && e3 == nil && v3 != nil, "concurrently registered versions are all present afterwards")
 }
+
+// Harness_C20_ClientRegistryLookups: concurrent lookups of different registered versions (lookups only read the
+// registry: nothing they share is written) and the results are those of sequential lookups.
+func Harness_C20_ClientRegistryLookups() {
+	r := New()
+	cfg := &common.ProtocolConfig{}
+	r.Register("2.0", &stubFactory{}) // "1.0" is registered by New
+	var v1, v2, v3 protocol.Version
+	var e1, e2, e3 error
+	verifrt.Concurrent(
+		func() { v1, e1 = r.CreateClientVersion("1.0", cfg) },
+		func() { v2, e2 = r.CreateClientVersion("2.0", cfg) },
+		func() { v3, e3 = r.CreateClientVersion("1.0", cfg) },
+	)
+	verifrt.Reach("done")
+	verifrt.Assert(e1 == nil && e2 == nil && e3 == nil && v1 != nil && v2 != nil && v3 != nil && v1.Version() == "1.0" && v2.Version() == "2.0" && v3.Version() == "1.0",
+		"concurrent lookups return the versions sequential lookups return")
+}
